@@ -241,6 +241,10 @@ def _layouts(rows, K, tier):
         lays.append(("3d_noncontig", (max(1, rows // 2), 2, K)))
     if rows in (8, 16):
         lays.append(("4d", (2, 2, rows // 4, K)))
+    if rows >= 2:
+        # activations quantized per row (axis 0) / per input feature (axis -1): their scale cannot be handled like a per-tensor one
+        lays.append(("peraxis0", (rows, K)))
+        lays.append(("peraxis-1", (rows, K)))
     if rows in (8, 17):
         lays.append(("expanded", (1, K)))  # a (1,K) activation expanded to (rows,K): row stride 0
     return lays
@@ -319,7 +323,14 @@ def _linear_task(task, out):
                             c = [wkind, family, akind, rows, layout, bias]
                             if only and only != c:
                                 continue
+                            if layout.startswith("peraxis") and (akind == "float" or family not in ("exact", "onehot")):
+                                continue
                             x, x64, _, _ = _act(akind, shape, dt, family, fam_phase)
+                            if layout.startswith("peraxis"):
+                                x, x64n = _peraxis(x, int(layout[7:]))
+                                if x64n is None:
+                                    continue
+                                x64 = x64n
                             if layout == "expanded":
                                 if isinstance(x, QBytesTensor):
                                     d = x._data.expand(rows, K)
